@@ -4,29 +4,12 @@ import (
 	"bytes"
 	"context"
 	"fmt"
+	. "github.com/postalsys/muti-metroo/internal/verifsim/meshkit"
 	"io"
 	"time"
 
-	"github.com/postalsys/muti-metroo/internal/verifrt/simnet"
 	"github.com/postalsys/muti-metroo/internal/verifrt/simrt"
 )
-
-func echoServer(c *simnet.TCPConn) {
-	buf := make([]byte, 4096)
-	for {
-		n, err := c.Read(buf)
-		if n > 0 {
-			if _, werr := c.Write(buf[:n]); werr != nil {
-				c.Close()
-				return
-			}
-		}
-		if err != nil {
-			c.Close()
-			return
-		}
-	}
-}
 
 func runSmoke() {
 	n := 3 + simrt.Choose(3, "n")
@@ -34,7 +17,7 @@ func runSmoke() {
 	exit := m.Nodes[n-1]
 	exit.Cfg.Exit.Enabled = true
 	exit.Cfg.Exit.Routes = []string{"192.168.0.0/16"}
-	m.Net.ServeTCP("192.168.1.10:80", echoServer)
+	m.Net.ServeTCP("192.168.1.10:80", EchoServer)
 	m.StartAll()
 	if !m.WaitConnected(60 * time.Second) {
 		simrt.Fail("smoke", "mesh did not connect", "")
